@@ -341,7 +341,7 @@ class PercentFormatString:
                             yield from specifier.accept(pair.value, ctx)
                     else:
                         non_literals.append(pair.key)
-                keys_left = cs_map.keys() - seen_keys
+                keys_left = [key for key in cs_map if key not in seen_keys]
                 if keys_left and not non_literals:
                     yield f"No value specified for keys {', '.join(keys_left)}"
         else:
